@@ -213,9 +213,9 @@ Theorem lx_exec0_iff args sts c st out c' sts' :
   lx_test args sts c = (TBool (st =? 0)%Z, c', sts').
 Proof. intros H. unfold lx_exec0, lx_test. rewrite H. split; reflexivity. Qed.
 
-(* an argument with a forbidden byte in the first 512 bytes of the line: IllegalDataException, nothing is sent *)
+(* an argument with a forbidden byte: IllegalDataException, nothing is sent, the channel is untouched *)
 Theorem lx_blacklist_rejects args sts c :
-  any_in (blacklist c) (firstn SEND_SLICE (utf8_enc (sh_escape args) ++ [CR])) = true ->
+  any_in (blacklist c) (utf8_enc (sh_escape args) ++ [CR]) = true ->
   lx_exec args sts c = (XErr EIllegal, c, sts).
 Proof. intros H. unfold lx_exec, exec_model. rewrite H. reflexivity. Qed.
 
